@@ -4,4 +4,5 @@ pub mod gen;
 pub mod guard;
 pub mod obs;
 pub mod props;
+pub mod refdec;
 pub mod tape;
